@@ -2,7 +2,7 @@
 """tools/audit_reach.py <tier> <seed...>: run every check for each seed (in parallel), collect the monitors' reach counters
 from the evidence files and list every MIN_REACH minimum that is above 60% of the smallest count seen (a false
 'inconclusive' waiting to happen) - and every non-zero exit."""
-import importlib, json, os, shutil, subprocess, sys, tempfile
+import ast, json, os, shutil, subprocess, sys, tempfile
 from concurrent.futures import ThreadPoolExecutor
 here = os.path.dirname(os.path.dirname(os.path.abspath(__file__)))
 sys.path.insert(0, here)
@@ -36,8 +36,11 @@ with ThreadPoolExecutor(max_workers=int(os.environ.get("VF_AUDIT_JOBS", "6"))) a
         if rc != 0:
             print("NONZERO %s seed=%s rc=%d: %s" % (pid, seed, rc, tail.strip().split("\n")[-1][:300]))
 for pid in ids:
-    mod = importlib.import_module("vf.props." + pid.lower())
-    for name, mins in getattr(mod, "MIN_REACH", {}).items():
+    mr = {}
+    for n_ in ast.parse(open(os.path.join(here, "vf", "props", pid.lower() + ".py")).read()).body:
+        if isinstance(n_, ast.Assign) and getattr(n_.targets[0], "id", None) == "MIN_REACH":
+            mr = ast.literal_eval(n_.value)
+    for name, mins in mr.items():
         vals = [o.get(name, 0) for _, _, o in res.get(pid, []) if o]
         if vals and mins.get(tier, 0) > 0.6 * min(vals):
             print("TIGHT %s %s: minimum %s, seen %s" % (pid, name, mins.get(tier), sorted(vals)))
